@@ -1,12 +1,19 @@
 """C17 - the transport applies defaults, per-request headers and auth plug-ins as documented.
 
-(A) design model checking of specs/Transport.tla (one request as a state machine) over the whole scenario space:
-    the code path AS IT IS (clauses it violates are evaluated into a verdict and printed per scenario, the clauses it
-    satisfies are real INVARIANTs) and the variant "fixed" (DesignOK as INVARIANT: the reference is satisfiable);
+(A) design model checking of specs/Transport.tla (a SESSION of requests through one transport as a state machine) over
+    the whole scenario space: the code path AS IT IS (clauses it violates are evaluated into a verdict and printed per
+    scenario, the clauses it satisfies are real INVARIANTs / an action PROPERTY), the variant "fixed" (DesignOK as
+    INVARIANT: the reference is satisfiable) and the deliberately broken variant "aliased_defaults" (must violate the
+    isolation properties: they bind);
 (B) the same run prints every scenario with its concretisation (SCEN lines); harness/w_transport.py builds the REAL
-    HttpxTransport for each over an httpx.MockTransport and captures the request that leaves it;
-(C) specs/Trace_Transport.tla (run by TLC) judges every captured request with TransportCore!Failures - the operator
-    that judged the modelled wire - and says whether the implementation-shaped model predicted it (DRIFT otherwise).
+    HttpxTransport for each over an httpx.MockTransport, sends the session's requests through that one transport and
+    captures every request that leaves it;
+(C) specs/Trace_Transport.tla (run by TLC) judges every captured request with TransportCore!SessionFailures - the
+    operator that judged the modelled wires - and says whether the implementation-shaped model predicted them (DRIFT
+    otherwise).
+
+Two families: "single" (one request; all plug-in orders / wrappings / overlap patterns) and "session" (2-3 requests over
+one transport; per-request header pattern per position, refresh-callback answers new / same / "" / None per position).
 """
 
 from __future__ import annotations
@@ -14,6 +21,7 @@ from __future__ import annotations
 import json
 from collections import Counter
 from concurrent.futures import ThreadPoolExecutor
+from dataclasses import dataclass
 from typing import Any
 
 from . import core
@@ -23,7 +31,10 @@ LEVEL = "model_checking"
 
 KINDS = ["B", "KH", "KQ", "KC", "H", "O", "OR"]
 ACTIONS = ["Defaults", "PerRequest", "Refresh", "Plugin", "Shortcut", "Send", "Judge"]
-HOLDING = ["TypeOK", "MachineIsModel", "CallerArgsUntouched", "TokenFresh", "VerdictIsJudge"]
+# hold for the code path as written
+HOLDING = ["TypeOK", "MachineIsModel", "CallerArgsUntouched", "TokenFresh", "DefaultsAsConfigured", "RequestIsolation"]
+HOLDING_PROPS = ["DefaultsUnchanged"]
+FIXED = HOLDING + ["SentEqualsFold", "KeyPlacement", "DesignOK"]
 CLAUSES = [
     "C17.header_precedence",
     "C17.plugin_order",
@@ -32,17 +43,35 @@ CLAUSES = [
     "C17.caller_params_changed",
     "C17.body_changed",
     "C17.token_stale",
+    "C17.defaults_mutated",
+    "C17.request_isolation[later requests judged]",
+    "C17.token_stale[no-op refresh answers]",
 ]
 
 
-def design_cfg(max_plugins: int, first: str, variant: str, tied: bool, emit: bool, invariants: list[str]) -> str:
-    inv = "".join(f"INVARIANT {i}\n" for i in invariants)
+@dataclass(frozen=True)
+class Chunk:
+    family: str  # "single" | "session"
+    max_plugins: int
+    max_reqs: int
+    first: str
+    tied: bool
+
+    @property
+    def label(self) -> str:
+        return f"{self.family}:p{self.max_plugins}{self.first},r{self.max_reqs}"
+
+
+def design_cfg(c: Chunk, variant: str, emit: bool, invariants: list[str], props: list[str]) -> str:
+    inv = "".join(f"INVARIANT {i}\n" for i in invariants) + "".join(f"PROPERTY {i}\n" for i in props)
     return f"""SPECIFICATION Spec
 CONSTANTS
- MaxPlugins = {max_plugins}
- First = {tla(first)}
+ MaxPlugins = {c.max_plugins}
+ MaxReqs = {c.max_reqs}
+ Family = {tla(c.family)}
+ First = {tla(c.first)}
  Variant = {tla(variant)}
- BodyTied = {tla(tied)}
+ BodyTied = {tla(c.tied)}
  Emit = {tla(emit)}
 {inv}CHECK_DEADLOCK FALSE
 """
@@ -65,8 +94,8 @@ def finding_for(findings: list[dict], clause: str, locus: dict[str, Any]) -> str
 
 
 class _SubScratch:
-    """A private numbering space inside the check's scratch directory, so that TLC runs started from helper threads do
-    not share core.Scratch's counter."""
+    """A private numbering space inside the check's scratch directory, so that TLC runs / workers started from helper
+    threads do not share core.Scratch's counter."""
 
     def __init__(self, chk: Check, name: str):
         self.path = chk.scratch.path / name
@@ -80,47 +109,56 @@ class _SubScratch:
         return p
 
 
+# ---------------------------------------------------------------------------------------------
+# side runs (threads; results are accounted by the main thread)
+
+
 def coverage_run(sub: _SubScratch):
-    """Small instance with -coverage: every action of the machine must fire (vacuity guard for the big runs, which
+    """Small instances with -coverage: every action of the machine must fire (vacuity guard for the big runs, which
     run without -coverage because it costs 2-3x)."""
-    r = run_tlc(sub, "Transport", design_cfg(1, "any", "as_is", True, False, HOLDING), coverage=True, allow_violation=True, workers=4)
-    return "Transport[as_is,<=1,coverage]", r, {"variant": "as_is", "max_plugins": 1, "first": "any"}
+    c = Chunk("session", 1, 2, "any", True)
+    r = run_tlc(sub, "Transport", design_cfg(c, "as_is", False, HOLDING, HOLDING_PROPS), coverage=True, allow_violation=True, workers=4)
+    return "Transport[as_is,coverage," + c.label + "]", r, {"variant": "as_is", "chunk": c.label}, "coverage"
 
 
-def design_fixed(sub: _SubScratch, max_plugins: int, first: str, tied: bool):
-    inv = ["TypeOK", "MachineIsModel", "SentEqualsFold", "KeyPlacement", "CallerArgsUntouched", "TokenFresh", "DesignOK"]
-    r = run_tlc(sub, "Transport", design_cfg(max_plugins, first, "fixed", tied, False, inv), allow_violation=True, workers=8)
-    return f"Transport[fixed,<={max_plugins},{first}]", r, {"variant": "fixed", "max_plugins": max_plugins, "first": first}
+def design_fixed(sub: _SubScratch, c: Chunk):
+    r = run_tlc(sub, "Transport", design_cfg(c, "fixed", False, FIXED, HOLDING_PROPS), allow_violation=True, workers=8)
+    return f"Transport[fixed,{c.label}]", r, {"variant": "fixed", "chunk": c.label}, "holds"
 
 
-def account_side_run(chk: Check, name: str, r: core.TlcResult, what: dict, need_actions: bool) -> None:
+def design_broken(sub: _SubScratch):
+    """The variant in which the prepared headers alias the transport's defaults dict must violate the isolation
+    properties - otherwise DefaultsUnchanged / RequestIsolation / DefaultsAsConfigured would be vacuous."""
+    c = Chunk("session", 0, 2, "any", True)
+    r = run_tlc(sub, "Transport", design_cfg(c, "aliased_defaults", False, ["DefaultsAsConfigured", "RequestIsolation"], HOLDING_PROPS), allow_violation=True, workers=2)
+    return f"Transport[aliased_defaults,{c.label}]", r, {"variant": "aliased_defaults", "chunk": c.label}, "must_fail"
+
+
+def account_side_run(chk: Check, name: str, r: core.TlcResult, what: dict, mode: str) -> None:
     chk.add_tlc(name, r)
+    if mode == "must_fail":
+        chk.require(bool(r.violated), "the broken design (prepared headers alias the defaults dict) satisfies the isolation properties: they do not bind")
+        chk.cov["broken_design_rejected_by"] = r.violated[0]
+        return
     chk.require(r.distinct > 0, f"{name} explored nothing")
     if r.violated:
         # as_is: a clause the code path is believed to satisfy fails in the model; fixed: the reference is not met by the
         # design that is meant to meet it
         chk.fail("C17.design_invariant", {"invariant": r.violated[0], "variant": what["variant"]}, what, r.out[-1500:])
-    elif need_actions:
+    elif mode == "coverage":
         for a in ACTIONS:
             chk.require(r.coverage.get(a, (0, 0))[1] > 0, f"vacuous design run: action {a} never taken")
 
 
-def design_as_is(chk: Check, max_plugins: int, first: str, tied: bool) -> list[dict]:
-    r = run_tlc(chk.scratch, "Transport", design_cfg(max_plugins, first, "as_is", tied, True, HOLDING), allow_violation=True)
-    chk.add_tlc(f"Transport[as_is,<={max_plugins},{first}]", r)
-    if r.violated:
-        chk.fail("C17.design_invariant", {"invariant": r.violated[0], "variant": "as_is"}, {"max_plugins": max_plugins, "first": first}, r.out[-1500:])
-        return []
-    scen = r.printed.get("SCEN", [])
-    chk.require(len(scen) > 0, "Transport.tla emitted no scenario")
-    scen.sort(key=lambda s: (complexity(s["sc"]), json.dumps(s["sc"], sort_keys=True)))
-    return scen
+# ---------------------------------------------------------------------------------------------
+# the pipeline of one chunk: design (as is) + generation -> replay on the real transport -> monitor
 
 
 def complexity(sc: dict) -> int:
     """Number of features switched on: the first failing scenario of every (clause, locus) becomes the replay file."""
-    n = 3 * len(sc["plugs"]) + (1 if sc["short"] else 0)
-    n += sum(1 for k in ("dflt", "req", "ca") if sc[k] != "none") + sum(1 for k in ("kn", "hn") if sc[k] != "disjoint")
+    n = 3 * len(sc["plugs"]) + (1 if sc["short"] else 0) + 4 * (len(sc["reqs"]) - 1)
+    n += sum(1 for k in ("dflt", "ca") if sc[k] != "none") + sum(1 for k in ("kn", "hn") if sc[k] != "disjoint")
+    n += sum(1 for r in sc["reqs"] if r != "none") + sum(1 for r in sc["rets"] if r != "new")
     n += sum(1 for k in ("params", "cookies", "body") if sc[k]) + (1 if sc["wrap"] in ("composite", "nestL", "nestR") else 0)
     return n
 
@@ -129,54 +167,124 @@ def _without(headers: list, lname: str) -> list:
     return [h for h in headers if h[1] != lname]
 
 
+def _set_header(headers: list, lname: str, value: str) -> list:
+    return [[h[0], h[1], value] if h[1] == lname else h for h in headers]
+
+
+def _at(i: int, f):
+    """corrupt the i-th observation of a session"""
+    return lambda obs: [f(o) if j == i else o for j, o in enumerate(obs)]
+
+
+def _single(sc: dict) -> bool:
+    return len(sc["reqs"]) == 1
+
+
 # corrupted copies of real observations the monitor must reject with the named clause (the binding of the judge itself):
-# (name, scenario predicate, corruption of the observation, clause that must be reported)
+# (name, scenario predicate, corruption of the session's observations, clause that must be reported)
 NEGATIVES = [
-    ("body_emptied", lambda sc: sc["body"] and not sc["plugs"], lambda o: {**o, "body": ""}, "C17.body_changed"),
-    ("param_dropped", lambda sc: sc["params"] and not sc["plugs"], lambda o: {**o, "query": o["query"][1:]}, "C17.caller_params_changed"),
-    ("cookie_dropped", lambda sc: sc["cookies"] and not sc["plugs"], lambda o: {**o, "cookies": []}, "C17.caller_params_changed"),
-    ("default_dropped", lambda sc: sc["dflt"] == "tag" and not sc["plugs"], lambda o: {**o, "headers": _without(o["headers"], "x-def")}, "C17.header_precedence"),
-    ("key_renamed", lambda sc: sc["plugs"] == ["KH"] and sc["kn"] == "disjoint",
-     lambda o: {**o, "headers": [["X-API-Key", "x-api-key", h[2]] if h[1] == "x-custom-key" else h for h in o["headers"]]}, "C17.apikey_name"),
-    ("key_dropped", lambda sc: sc["plugs"] == ["KH"] and sc["kn"] == "disjoint", lambda o: {**o, "headers": _without(o["headers"], "x-custom-key")}, "C17.apikey_location"),
-    ("token_old", lambda sc: sc["plugs"] == ["OR"] and sc["ca"] == "none",
-     lambda o: {**o, "headers": [[h[0], h[1], "Bearer tok-r0"] if h[1] == "authorization" else h for h in o["headers"]]}, "C17.token_stale"),
-    ("first_plugin_wins", lambda sc: sc["plugs"] == ["B", "O"] and sc["ca"] == "none",
-     lambda o: {**o, "headers": [[h[0], h[1], "Bearer tok-b"] if h[1] == "authorization" else h for h in o["headers"]]}, "C17.plugin_order"),
+    ("body_emptied", lambda sc: _single(sc) and sc["body"] and not sc["plugs"], _at(0, lambda o: {**o, "body": ""}), "C17.body_changed"),
+    ("param_dropped", lambda sc: _single(sc) and sc["params"] and not sc["plugs"], _at(0, lambda o: {**o, "query": o["query"][1:]}), "C17.caller_params_changed"),
+    ("cookie_dropped", lambda sc: _single(sc) and sc["cookies"] and not sc["plugs"], _at(0, lambda o: {**o, "cookies": []}), "C17.caller_params_changed"),
+    ("default_dropped", lambda sc: _single(sc) and sc["dflt"] == "tag" and not sc["plugs"], _at(0, lambda o: {**o, "headers": _without(o["headers"], "x-def")}), "C17.header_precedence"),
+    ("key_renamed", lambda sc: _single(sc) and sc["plugs"] == ["KH"] and sc["kn"] == "disjoint",
+     _at(0, lambda o: {**o, "headers": [["X-API-Key", "x-api-key", h[2]] if h[1] == "x-custom-key" else h for h in o["headers"]]}), "C17.apikey_name"),
+    ("key_dropped", lambda sc: _single(sc) and sc["plugs"] == ["KH"] and sc["kn"] == "disjoint", _at(0, lambda o: {**o, "headers": _without(o["headers"], "x-custom-key")}), "C17.apikey_location"),
+    ("token_old", lambda sc: _single(sc) and sc["plugs"] == ["OR"] and sc["ca"] == "none",
+     _at(0, lambda o: {**o, "headers": _set_header(o["headers"], "authorization", "Bearer tok-r0")}), "C17.token_stale"),
+    ("first_plugin_wins", lambda sc: _single(sc) and sc["plugs"] == ["B", "O"] and sc["ca"] == "none",
+     _at(0, lambda o: {**o, "headers": _set_header(o["headers"], "authorization", "Bearer tok-b")}), "C17.plugin_order"),
+    # sessions
+    ("override_leaks", lambda sc: sc["reqs"] == ["equal", "none"] and not sc["plugs"] and not sc["short"] and sc["ca"] == "none",
+     _at(1, lambda o: {**o, "headers": _set_header(o["headers"], "x-tag", "r1-tag")}), "C17.header_precedence"),
+    ("extra_header_leaks", lambda sc: sc["reqs"] == ["disjoint", "none"] and sc["dflt"] == "tag" and not sc["plugs"] and not sc["short"] and sc["ca"] == "none",
+     _at(1, lambda o: {**o, "headers": o["headers"] + [["X-Req", "x-req", "r1-only"]]}), "C17.header_precedence"),
+    ("defaults_grew", lambda sc: sc["reqs"] == ["disjoint", "none"] and sc["dflt"] == "tag" and not sc["plugs"],
+     _at(0, lambda o: {**o, "defaults": o["defaults"] + [["X-Req", "r1-only"]]}), "C17.defaults_mutated"),
+    ("token_wiped", lambda sc: sc["plugs"] == ["OR"] and sc["rets"] == ["new", "empty"] and sc["ca"] == "none",
+     _at(1, lambda o: {**o, "headers": _set_header(o["headers"], "authorization", "Bearer ")}), "C17.token_stale"),
+    ("callback_shown_nothing", lambda sc: sc["plugs"] == ["OR"] and sc["rets"] == ["none", "new"] and sc["ca"] == "none",
+     _at(1, lambda o: {**o, "refresh": ["<none>"]}), "C17.token_stale"),
 ]
 
+HTTPX_OWN = {"host", "accept", "accept-encoding", "connection", "user-agent", "content-length", "content-type"}
 
-def replay_and_judge(chk: Check, scen: list[dict], label: str, design_dev: Counter, verbose: bool = False, negatives: bool = False) -> None:
-    jobs = [{"id": f"{label}-{i}", "cfg": s["cfg"]} for i, s in enumerate(scen)]
-    res = core.parallel_py(chk.scratch, "harness.w_transport", jobs)
+
+def _brief(obs: list[dict]) -> list[dict]:
+    out = []
+    for ob in obs:
+        o = {k: v for k, v in ob.items() if k not in ("defaults",)}
+        o["headers"] = [[h[0], h[2]] for h in ob["headers"] if h[1] not in HTTPX_OWN]
+        if ob.get("defaults"):
+            o["defaults_after"] = ob["defaults"]
+        out.append(o)
+    return out
+
+
+def pipeline(sub: _SubScratch, c: Chunk, scen_override: list[dict] | None = None, negatives: bool = True) -> dict:
+    """Thread-safe part: TLC design + generation, replay on the real code, TLC monitor.  Returns a bundle for account()."""
+    b: dict[str, Any] = {"chunk": c, "tlc": [], "violated": None, "scen": [], "res": [], "vs": {}, "negs": []}
+    if scen_override is None:
+        r = run_tlc(sub, "Transport", design_cfg(c, "as_is", True, HOLDING, HOLDING_PROPS), allow_violation=True, workers=12)
+        b["tlc"].append((f"Transport[as_is,{c.label}]", r))
+        if r.violated:
+            b["violated"] = (r.violated[0], r.out[-1500:])
+            return b
+        scen = r.printed.get("SCEN", [])
+        if not scen:
+            raise core.MachineryError(f"Transport.tla emitted no scenario for {c.label}")
+        scen.sort(key=lambda s: (complexity(s["sc"]), json.dumps(s["sc"], sort_keys=True)))
+    else:
+        scen = scen_override
+    jobs = [{"id": f"{c.label}-{i}", "cfg": s["cfg"]} for i, s in enumerate(scen)]
+    res = core.parallel_py(sub, "harness.w_transport", jobs, nproc=min(core.NCPU, 12, max(1, len(jobs))))
     negs = []
     if negatives:
         for name, pred, corrupt, clause in NEGATIVES:
             for j, s, r in zip(jobs, scen, res):
-                if pred(s["sc"]) and r["obs"]["err"] == "none":
-                    negs.append({"id": f"neg-{label}-{name}", "base": j["id"], "sc": s["sc"], "obs": corrupt(r["obs"]), "expect": clause, "name": name})
+                if pred(s["sc"]) and all(o["err"] == "none" for o in r["obs"]):
+                    negs.append({"id": f"neg-{c.label}-{name}", "base": j["id"], "sc": s["sc"], "obs": corrupt(r["obs"]), "expect": clause, "name": name})
                     break
-    d = chk.scratch.sub("traces")
+    d = sub.sub("traces")
     tf = d / "traces.ndjson"
     with tf.open("w") as f:
         for j, s, r in zip(jobs, scen, res):
             f.write(json.dumps({"id": j["id"], "sc": s["sc"], "obs": r["obs"]}) + "\n")
         for n in negs:
             f.write(json.dumps({"id": n["id"], "sc": n["sc"], "obs": n["obs"]}) + "\n")
-    r = run_tlc(chk.scratch, "Trace_Transport", "SPECIFICATION Spec\nCHECK_DEADLOCK FALSE\n", env={"TRACE_FILE": str(tf)}, coverage=len(scen) < 5000)
-    chk.add_tlc(f"Trace_Transport[{label}]", r)
+    r = run_tlc(sub, "Trace_Transport", "SPECIFICATION Spec\nCHECK_DEADLOCK FALSE\n", env={"TRACE_FILE": str(tf)}, coverage=len(scen) < 2000, workers=12)
+    b["tlc"].append((f"Trace_Transport[{c.label}]", r))
     vs = {v["id"]: v for v in r.printed.get("VERDICT", [])}
-    chk.require(len(vs) == len(jobs) + len(negs), f"monitor produced {len(vs)} verdicts for {len(jobs) + len(negs)} traces")
-    for n in negs:
+    if len(vs) != len(jobs) + len(negs):
+        raise core.MachineryError(f"monitor produced {len(vs)} verdicts for {len(jobs) + len(negs)} traces ({c.label})")
+    b.update(scen=scen, res=res, vs=vs, negs=negs, jobs=jobs)
+    return b
+
+
+_seen: dict[str, int] = {}
+
+
+def account(chk: Check, b: dict, design_dev: Counter, verbose: bool = False) -> None:
+    c: Chunk = b["chunk"]
+    label = c.label
+    for name, r in b["tlc"]:
+        chk.add_tlc(name, r)
+    if b["violated"]:
+        chk.fail("C17.design_invariant", {"invariant": b["violated"][0], "variant": "as_is"}, {"chunk": label}, b["violated"][1])
+        return
+    scen, res, vs, jobs = b["scen"], b["res"], b["vs"], b["jobs"]
+    for n in b["negs"]:
         got = [f["clause"] for f in vs[n["id"]].get("fails") or []]
         if vs[n["base"]].get("fails"):
             # the real observation it was derived from is itself failing (a tree that violates C17 there): the corruption
             # is not meaningful, the violation is reported through the normal path
-            chk.cov.setdefault("negative_traces_rejected", {})[n["name"]] = "skipped: base observation already failing"
+            chk.cov.setdefault("negative_traces_rejected", {}).setdefault(n["name"], "skipped: base observation already failing")
             continue
         chk.require(n["expect"] in got, f"negative trace {n['name']} ({json.dumps(n['sc'])}) was not rejected with {n['expect']}: monitor said {got}")
         chk.cov.setdefault("negative_traces_rejected", {})[n["name"]] = n["expect"]
+    nreq = sum(len(s["sc"]["reqs"]) for s in scen)
     chk.cov["traces_validated_against_impl"] += len(jobs)
+    chk.cov["requests_replayed"] = chk.cov.get("requests_replayed", 0) + nreq
     chk.count(len(jobs))
     ndrift = 0
     for j, s, o in zip(jobs, scen, res):
@@ -191,7 +299,10 @@ def replay_and_judge(chk: Check, scen: list[dict], label: str, design_dev: Count
         chk.clause("C17.caller_params_changed", (1 if a["params"] else 0) + (1 if a["cookies"] else 0))
         chk.clause("C17.body_changed", a["body"])
         chk.clause("C17.token_stale", a["refresh"])
-        if sc["plugs"] or sc["short"] or (cfg["defaults"] and cfg["reqHeaders"]):
+        chk.clause("C17.defaults_mutated", a["defaults"])
+        chk.clause("C17.request_isolation[later requests judged]", a["later"])
+        chk.clause("C17.token_stale[no-op refresh answers]", a["noop_refresh"])
+        if sc["plugs"] or sc["short"] or len(sc["reqs"]) > 1 or (cfg["defaults"] and cfg["requests"][0]):
             chk.nontrivial(sc)
         # the SCEN line's design verdict and the monitor's evaluation of the model are the same computation
         d_scen = sorted(fkey(f) for f in (s.get("design") or []))
@@ -202,7 +313,7 @@ def replay_and_judge(chk: Check, scen: list[dict], label: str, design_dev: Count
         if v["drift"]:
             ndrift += 1
             if ndrift <= 3:
-                chk.note_drift(f"{label}: real request differs from the as-is model for {json.dumps(sc)}: observed {json.dumps(_brief(o['obs']))}")
+                chk.note_drift(f"{label}: real requests differ from the as-is model for {json.dumps(sc)}: observed {json.dumps(_brief(o['obs']))}")
         for f in v.get("fails") or []:
             # full detail for the first observations of every (clause, locus); later ones only carry the scenario
             k = fkey(f)
@@ -214,41 +325,38 @@ def replay_and_judge(chk: Check, scen: list[dict], label: str, design_dev: Count
         if verbose:
             print("SCENARIO", json.dumps(sc))
             print("CONFIG  ", json.dumps(cfg))
-            print("OBSERVED", json.dumps(o["obs"]))
+            for i, ob in enumerate(o["obs"]):
+                print(f"OBSERVED request {i + 1}", json.dumps(ob))
             print("VERDICT ", json.dumps(v))
     if ndrift > 3:
-        chk.note_drift(f"{label}: {ndrift} requests in total differ from the as-is model")
+        chk.note_drift(f"{label}: {ndrift} sessions in total differ from the as-is model")
     if scen:
         i = (len(scen) * 2) // 3
         chk.sample({"family": label, "scenario": scen[i]["sc"], "observed": _brief(res[i]["obs"]), "failing": [f["clause"] for f in vs[jobs[i]["id"]].get("fails") or []]})
 
 
-_seen: dict[str, int] = {}
-HTTPX_OWN = {"host", "accept", "accept-encoding", "connection", "user-agent", "content-length", "content-type"}
-
-
-def _brief(obs: dict) -> dict:
-    o = dict(obs)
-    o["headers"] = [[h[0], h[2]] for h in obs["headers"] if h[1] not in HTTPX_OWN]
-    return o
-
-
 def run(chk: Check) -> None:
     thorough = chk.tier == "thorough"
     chk.cov["rule"] = (
-        "TLC enumerates every scenario of Transport.tla: ordered subsets of the 7 plug-in configurations (Bearer, ApiKey header/"
-        "query/cookie, Headers, OAuth2 with/without refresh) of size <=2 (quick) / <=3 (thorough), every CompositeAuth wrapping "
-        "(direct, flat, nested left/right), the bearer_token= shortcut alone and next to one plug-in, defaults x per-request "
-        "header-name pattern {none, disjoint, equal, case variant}, a caller Authorization header {none, equal, case variant} x "
-        "{defaults, per-request}, API-key header name and HeadersAuth name patterns {disjoint, equal, case variant}, caller params / "
-        "cookies / body present or not (quick tier and three-plug-in sequences: body present iff cookies absent). Every scenario is replayed on the real "
-        "HttpxTransport; non-trivial = at least one plug-in or the shortcut or defaults and per-request headers both present, "
-        "distinct by scenario record"
+        "TLC enumerates every scenario of Transport.tla. Family 'single' (one request): ordered subsets of the 7 plug-in "
+        "configurations (Bearer, ApiKey header/query/cookie, Headers, OAuth2 with/without refresh) of size <=2 (quick) / <=3 "
+        "(thorough), every CompositeAuth wrapping (direct, flat, nested left/right), the bearer_token= shortcut alone and next to "
+        "one plug-in, defaults x per-request header-name pattern {none, disjoint, equal, case variant}, a caller Authorization "
+        "header {none, equal, case variant} x {defaults, per-request}, API-key header name and HeadersAuth name patterns "
+        "{disjoint, equal, case variant}, caller params / cookies / body present or not (quick tier and three-plug-in sequences: "
+        "body present iff cookies absent). Family 'session' (one transport, 2 requests; thorough also 3 requests and <=2 "
+        "plug-ins): <=1 plug-in, every wrapping / shortcut, every combination of per-request header patterns per position, a "
+        "per-request Authorization header on the first request {none, equal, case variant}, every script of refresh-callback "
+        "answers per position {new token, same token, '', None}, params / cookies / body on every request. Every scenario is "
+        "replayed on the real HttpxTransport and every request of it judged; non-trivial = at least one plug-in or the "
+        "shortcut or >1 request or defaults and per-request headers both present, distinct by scenario record"
     )
     chk.assumptions += [
-        "the request is observed as the httpx.Request handed to an httpx.MockTransport injected by wrapping httpx.AsyncClient.__init__",
+        "requests are observed as the httpx.Request handed to an httpx.MockTransport injected by wrapping httpx.AsyncClient.__init__",
+        "the transport's default-headers configuration is observed through the dict object the caller passed as default_headers=",
         "the effective value of a header is the ordered list of values sent under that name compared case-insensitively; the "
         "reference requires exactly one value",
+        "a refresh callback answering '' or None means 'nothing new': the token in force stays (OAuth2Auth's documented guard)",
         "per-request headers are passed as a dict (what generated clients do); non-dict header containers are outside the family",
         "httpx's own headers (host, accept, user-agent, content-length, ...) are not judged",
     ]
@@ -256,33 +364,42 @@ def run(chk: Check) -> None:
     if thorough:
         # all sequences of <= 2 plug-ins with the body dimension free, then the 210 x 3 three-plug-in composites
         # partitioned by their first plug-in (body tied to the cookie dimension)
-        chunks = [(2, "any", False)] + [(3, k, True) for k in KINDS]
+        singles = [Chunk("single", 2, 1, "any", False)] + [Chunk("single", 3, 1, k, True) for k in KINDS]
+        sessions = [Chunk("session", 1, 2, "any", True), Chunk("session", 2, 2, "any", True), Chunk("session", 1, 3, "any", True)]
     else:
-        chunks = [(2, "any", True)]
+        singles = [Chunk("single", 2, 1, "any", True)]
+        sessions = [Chunk("session", 1, 2, "any", True)]
     side = _SubScratch(chk, "side")
-    with ThreadPoolExecutor(max_workers=1) as pool:
-        # the side runs (coverage instance, "fixed" variant) proceed while the as-is pipeline of the same chunk runs
-        futs = [(pool.submit(coverage_run, side), True)]
-        for mp, first, tied in chunks:
-            futs.append((pool.submit(design_fixed, side, mp, first, tied), False))
-        for mp, first, tied in chunks:
-            scen = design_as_is(chk, mp, first, tied)
-            if scen:
-                replay_and_judge(chk, scen, f"{mp}{first}", design_dev, negatives=True)
-        for fut, need in futs:
-            name, r, what = fut.result()
-            account_side_run(chk, name, r, what, need)
+
+    def lane(name: str, chunks: list[Chunk]) -> list[dict]:
+        sub = _SubScratch(chk, name)
+        return [pipeline(sub, c) for c in chunks]
+
+    with ThreadPoolExecutor(max_workers=3) as pool:
+        # the side runs (coverage instance, "fixed" variant, broken variant) and the session lane proceed while the
+        # single-request lane runs; all accounting happens here in the main thread
+        f_singles = pool.submit(lane, "singles", singles)
+        f_sessions = pool.submit(lane, "sessions", sessions)
+        f_side = [pool.submit(coverage_run, side), pool.submit(design_broken, side)]
+        f_side += [pool.submit(design_fixed, side, c) for c in sessions + singles]
+        for b in f_singles.result():
+            account(chk, b, design_dev)
+        for b in f_sessions.result():
+            account(chk, b, design_dev)
+        for fut in f_side:
+            name, r, what, mode = fut.result()
+            account_side_run(chk, name, r, what, mode)
     findings = [f for f in core.load_findings() if f.get("property") == chk.prop]
     dd = []
     for k, n in sorted(design_dev.items()):
         clause, locus = json.loads(k)
         dd.append({"clause": clause, "locus": locus, "scenarios": n, "finding": finding_for(findings, clause, locus)})
     chk.cov["design_deviations"] = dd
-    if not chk.fails or all(f["clause"] != "C17.design_invariant" for f in chk.fails):
+    if all(f["clause"] != "C17.design_invariant" for f in chk.fails):
         missing = [n[0] for n in NEGATIVES if n[0] not in chk.cov.get("negative_traces_rejected", {})]
         chk.require(not missing, f"negative traces never exercised: {missing}")
-    for c in CLAUSES:
-        chk.require(chk.cov["clauses_checked"].get(c, 0) > 0, f"clause {c} was never evaluated")
+        for c in CLAUSES:
+            chk.require(chk.cov["clauses_checked"].get(c, 0) > 0, f"clause {c} was never evaluated")
     chk.cov["exhaustive"] = True
 
 
@@ -291,6 +408,10 @@ def replay(chk: Check, path: str) -> None:
     s = rec["scenario"]
     if "sc" not in s:
         raise core.MachineryError("replay file carries no scenario (design-level records are re-run by the full check)")
-    replay_and_judge(chk, [{"sc": s["sc"], "cfg": s["cfg"], "design": None}], "replay", Counter(), verbose=True)
+    if "cfg" not in s:
+        raise core.MachineryError("replay file carries the scenario only (a later observation of a (clause, locus) class); use the first replay file of that class")
+    sub = _SubScratch(chk, "replay")
+    b = pipeline(sub, Chunk("replay", 3, 3, "any", True), scen_override=[{"sc": s["sc"], "cfg": s["cfg"], "design": None}], negatives=False)
+    account(chk, b, Counter(), verbose=True)
     for f in chk.fails:
         print("REPLAY-FAIL", f["clause"], json.dumps(f["locus"], sort_keys=True))
